@@ -33,7 +33,7 @@ impl Monitor for Nop {
 fn seed_replies(cfg: &Cfg) -> Vec<Reply> {
     let fp = if cfg.fingerprint { RFp::Valid } else { RFp::Absent };
     let ok = Reply::plain(RClass::Success).with_fp(fp);
-    let c = |realm, nonce, pas| Chal { realm, nonce, pas, realm_v: 0 };
+    let c = |realm, nonce, pas| Chal { realm, nonce, pas, realm_v: 0, order: 0 };
     match cfg.mech {
         Mech::None => vec![ok, Reply::plain(RClass::Error(400)).with_fp(fp), Reply::plain(RClass::Indication).with_fp(fp), ok.with_mac(RMac::Mi)],
         Mech::ShortTerm(_) => vec![
